@@ -422,7 +422,7 @@ pub struct Scene<C: MlsConfig> {
 }
 
 pub fn scene<C: MlsConfig>(rng: &mut Rng, mk: Mk<C>, variant: u64, sqlite: bool, flavor: Flavor) -> Result<Scene<C>, String> {
-    let mut w: World<C> = new_world(Default::default(), "/tmp/vharness-scratch-c15");
+    let mut w: World<C> = new_world(Default::default(), &crate::util::scratch("c15"));
     let psk_id = rng.bytes(8);
     let psk_val = rng.bytes(32);
     w.psks.insert(psk_id.clone(), psk_val);
@@ -1331,7 +1331,7 @@ pub fn report(out: &Out, dir: &str, stem: &str) {
     println!("faulted_calls {}", out.by_call.iter().map(|(k, v)| format!("{k}={v}")).collect::<Vec<_>>().join(","));
     println!("oracle_failures {}", out.fails.len());
     std::fs::create_dir_all(dir).ok();
-    std::fs::write(format!("{dir}/{stem}.failures"), out.fails.iter().take(300).cloned().collect::<Vec<_>>().join("\n")).unwrap();
+    std::fs::write(format!("{dir}/{stem}.failures"), out.fails.iter().cloned().collect::<Vec<_>>().join("\n")).unwrap();
     std::fs::write(format!("{dir}/{stem}.samples"), out.samples.join("\n")).unwrap();
 }
 
@@ -1344,7 +1344,7 @@ pub fn run(o: &Opts) -> i32 {
     let variants = o.u64("variants", if o.thorough() { 12 } else { 4 });
     run_sweeps(&mut rng, &mk, &mut out, &["storage.", "kp.", "psk."], if o.thorough() { Pairs::All } else { Pairs::Few }, variants);
     report(&out, &dir, "c15");
-    let _ = std::fs::remove_dir_all("/tmp/vharness-scratch-c15");
+    let _ = std::fs::remove_dir_all(&crate::util::scratch("c15"));
     0
 }
 
@@ -1365,10 +1365,10 @@ pub fn run_c04_faults(o: &Opts) -> i32 {
     println!("fault_oracle_failures {}", out.fails.len());
     use std::io::Write;
     if let Ok(mut f) = std::fs::OpenOptions::new().append(true).open(format!("{dir}/c04.failures")) {
-        for l in out.fails.iter().take(200) {
+        for l in out.fails.iter() {
             let _ = writeln!(f, "C04: {l}");
         }
     }
-    let _ = std::fs::remove_dir_all("/tmp/vharness-scratch-c15");
+    let _ = std::fs::remove_dir_all(&crate::util::scratch("c15"));
     0
 }
